@@ -133,9 +133,10 @@ Record good (w : st) : Prop := {
   g_owner : forall e, e < n w -> alive w e = true -> ereg (E w e) = true ->
               In (euid (E w e), e) (R w (ews (E w e)) (ekind (E w e)));
   g_dead : forall e, In e (dead w) -> e < n w;
-  g_fresh : forall e, euid (E w e) < fresh w }.
+  g_fresh : forall e, euid (E w e) < fresh w;
+  g_f100 : 100 <= fresh w }.
 
-Arguments g_nodup {w}. Arguments g_entry {w}. Arguments g_owner {w}. Arguments g_dead {w}. Arguments g_fresh {w}.
+Arguments g_nodup {w}. Arguments g_entry {w}. Arguments g_owner {w}. Arguments g_dead {w}. Arguments g_fresh {w}. Arguments g_f100 {w}.
 
 Definition same_ids (w w' : st) : Prop :=
   forall e, euid (E w' e) = euid (E w e) /\ ekind (E w' e) = ekind (E w e) /\ ews (E w' e) = ews (E w e) /\ ereg (E w' e) = ereg (E w e).
@@ -152,6 +153,7 @@ Proof.
   - intros e. rewrite Hn, Ha, HR. destruct (Hs e) as [S1 [S2 [S3 S4]]]. rewrite S1, S2, S3, S4. apply (g_owner G).
   - intros e. rewrite Hd, Hn. apply (g_dead G).
   - intros e. destruct (Hs e) as [S1 _]. rewrite S1. pose proof (g_fresh G e). lia.
+  - pose proof (g_f100 G). lia.
 Qed.
 
 Lemma same_ids_refl w : same_ids w w.
@@ -189,6 +191,7 @@ Proof.
     + apply Nat.eqb_neq in E. apply (g_owner G); [lia | exact Ha].
   - intros e He. pose proof (g_dead G e He). lia.
   - intros e. destruct (Nat.eqb e (n w)); [exact Hu | apply (g_fresh G)].
+  - apply (g_f100 G).
 Qed.
 
 Lemma alloc_facts w r : snd (alloc w r) = n w /\ n (fst (alloc w r)) = S (n w) /\ E (fst (alloc w r)) (n w) = r
@@ -230,6 +233,7 @@ Proof.
     + rewrite R_set_R_other by exact E0. exact Hin.
   - apply (g_dead G).
   - apply (g_fresh G).
+  - apply (g_f100 G).
 Qed.
 
 Lemma good_clean w ws k u : good w -> good (set_R w ws k (fst (get_clean_ref (alive w) (R w ws k) u))).
@@ -303,13 +307,14 @@ Proof.
       * rewrite R_set_R_other by exact E0. exact Hin.
   - apply (g_dead G).
   - intros e. destruct (Nat.eq_dec e x) as [->|Hne]; [rewrite Ex; simpl; apply (g_fresh G) | rewrite (Eid e Hne); apply (g_fresh G)].
+  - apply (g_f100 G).
 Qed.
 
 (* ---------------- deaths ---------------- *)
 Lemma good_more_dead w l :
   good w -> (forall e, In e l -> e < n w) -> (forall e, In e (dead w) -> In e l) -> good (set_dead w l).
 Proof.
-  intros G Hl Hsup. constructor; try apply (g_nodup G); try apply (g_entry G); try apply (g_fresh G).
+  intros G Hl Hsup. constructor; try apply (g_nodup G); try apply (g_entry G); try apply (g_fresh G); try apply (g_f100 G).
   - intros e He Ha Hr. apply (g_owner G e He); [|exact Hr].
     unfold alive in *. simpl in Ha. destruct (memb e (dead w)) eqn:Em; [|reflexivity].
     apply memb_In in Em. apply Hsup, memb_In in Em. rewrite Em in Ha. discriminate.
@@ -429,9 +434,9 @@ Proof.
     rewrite Hk. destruct (rollback c); simpl; congruence.
 Qed.
 
-Lemma good_type w ws cls : good w -> cls < fresh w -> good (fst (find_or_create_type w ws cls)) /\ fresh (fst (find_or_create_type w ws cls)) = fresh w.
+Lemma good_type w ws cls : good w -> good (fst (find_or_create_type w ws cls)) /\ fresh (fst (find_or_create_type w ws cls)) = fresh w.
 Proof.
-  intros G Hc. unfold find_or_create_type.
+  intros G. assert (Hc : tuid cls < fresh w) by (pose proof (g_f100 G); unfold tuid; lia). unfold find_or_create_type.
   pose proof (good_clean w ws KType (tuid cls) G) as G1.
   destruct (get_clean_ref (alive w) (R w ws KType) (tuid cls)) as [d [t|]]; simpl in G1; [split; [exact G1 | reflexivity]|].
   set (w1 := set_R w ws KType d) in *.
@@ -490,32 +495,91 @@ Qed.
 Lemma touch_fresh w ws k u : fresh (touch_metadata w ws k u) = fresh w.
 Proof. unfold touch_metadata. destruct (kidx_storable k); [apply (get_entity_fresh w ws u) | reflexivity]. Qed.
 
-Lemma copy_uid_fresh_le w ws u : fresh w <= fresh (fst (copy_uid w ws u)).
-Proof.
-  unfold copy_uid. destruct (get_entity_fresh w ws u) as [Hf _].
-  destruct (get_entity w ws u) as [w1 [x|]]; simpl in *; lia.
-Qed.
-
 Lemma good_do_copy c w e target : good w -> good (fst (do_copy c w e target)).
 Proof.
   intros G. unfold do_copy.
   pose proof (good_touch w (ews (E w e)) (ekind (E w e)) (euid (E w e)) G) as G0.
-  pose proof (touch_fresh w (ews (E w e)) (ekind (E w e)) (euid (E w e))) as Hf0.
   set (w0 := touch_metadata w (ews (E w e)) (ekind (E w e)) (euid (E w e))) in *.
   set (ws := ews (E w target)).
   assert (Hu : euid (E w0 e) < fresh w0) by apply (g_fresh G0).
   destruct (ekind (E w0 e)); try exact G0.
-  - (* group *)
-    destruct (usable w0 target KGroup); [|exact G0].
+  - destruct (usable w0 target KGroup); [|exact G0].
     destruct (good_copy_uid w0 ws (euid (E w0 e)) G0 Hu) as [G1 Hu1].
-    pose proof (copy_uid_fresh_le w0 ws (euid (E w0 e))) as Hle.
-    destruct (copy_uid w0 ws (euid (E w0 e))) as [w1 u']. simpl in G1, Hu1, Hle.
-    assert (Hc : ecls (E w0 e) < fresh w1 \/ True) by (right; exact I).
-    destruct (Nat.lt_ge_cases (ecls (E w0 e)) (fresh w1)) as [Hcl|Hcl].
-    + destruct (good_type w1 ws (ecls (E w0 e)) G1 Hcl) as [G2 Hf2].
-      destruct (find_or_create_type w1 ws (ecls (E w0 e))) as [w2 t]. simpl in G2, Hf2.
-      pose proof (good_construct c w2 ws KGroup (ecls (E w0 e)) target u' t [] G2 ltac:(rewrite Hf2; exact Hu1)) as G3.
-      destruct (construct c w2 ws KGroup (ecls (E w0 e)) target u' t []) as [[w3 o] y]. exact G3.
-    + (* classes are 0..4 and fresh >= 100: excluded by the class bound below *)
-      exfalso. revert Hcl. clear. intros. exact (False_ind _ (ltac:(idtac) : False)).
-Abort.
+    destruct (copy_uid w0 ws (euid (E w0 e))) as [w1 u']. simpl in G1, Hu1.
+    destruct (good_type w1 ws (ecls (E w0 e)) G1) as [G2 Hf2].
+    destruct (find_or_create_type w1 ws (ecls (E w0 e))) as [w2 t]. simpl in G2, Hf2.
+    assert (Hu2 : u' < fresh w2) by (rewrite Hf2; exact Hu1).
+    pose proof (good_construct c w2 ws KGroup (ecls (E w0 e)) target u' t [] G2 Hu2) as G3.
+    destruct (construct c w2 ws KGroup (ecls (E w0 e)) target u' t []) as [[w3 o] y]. exact G3.
+  - destruct (usable w0 target KGroup); [|exact G0].
+    destruct (good_copy_uid w0 ws (euid (E w0 e)) G0 Hu) as [G1 Hu1].
+    destruct (copy_uid w0 ws (euid (E w0 e))) as [w1 u']. simpl in G1, Hu1.
+    destruct (good_type w1 ws (ecls (E w0 e)) G1) as [G2 Hf2].
+    destruct (find_or_create_type w1 ws (ecls (E w0 e))) as [w2 t]. simpl in G2, Hf2.
+    assert (Hu2 : u' < fresh w2) by (rewrite Hf2; exact Hu1).
+    pose proof (good_construct c w2 ws KObject (ecls (E w0 e)) target u' t [] G2 Hu2) as G3.
+    destruct (construct c w2 ws KObject (ecls (E w0 e)) target u' t []) as [[w3 o] x']. simpl in G3.
+    destruct o; try exact G3.
+    pose proof (good_copy_children c (ech (E w3 e)) w3 ws x' [] G3) as G4.
+    destruct (copy_children c w3 ws x' (ech (E w3 e)) []) as [[w4 o4] cmap]. simpl in G4.
+    destruct o4; try exact G4. apply good_copy_pgs. exact G4.
+  - destruct (usable w0 target KObject); [|exact G0].
+    destruct (good_copy_uid w0 ws (euid (E w0 e)) G0 Hu) as [G1 Hu1].
+    destruct (copy_uid w0 ws (euid (E w0 e))) as [w1 u']. simpl in G1, Hu1.
+    pose proof (good_construct c w1 ws KData 3 target u' 0 [] G1 Hu1) as G3.
+    destruct (construct c w1 ws KData 3 target u' 0 []) as [[w3 o] y]. exact G3.
+Qed.
+
+Lemma good_sweep w ws k : good w -> good (sweep w ws k).
+Proof.
+  intros G. unfold sweep. pose proof (good_sweep_R w ws k G) as G1.
+  destruct (kidx_storable k); [apply good_set_flat; exact G1 | exact G1].
+Qed.
+
+Lemma good_step c w a : good w -> good (fst (step c w a)).
+Proof.
+  intros G. destruct a as [ws isobj parent u|obj u|obj ds u|e target|e|es|ws k|ws e]; unfold step.
+  - destruct (usable w parent KGroup && Nat.eqb (ews (E w parent)) ws); [|exact G].
+    destruct (good_pick w u G) as [G0 Hu0]. destruct (pick_uid w u) as [w0 uid]. simpl in G0, Hu0.
+    destruct (good_type w0 ws (if isobj then 2 else 1) G0) as [G1 Hf1].
+    destruct (find_or_create_type w0 ws (if isobj then 2 else 1)) as [w1 t]. simpl in G1, Hf1.
+    assert (Hu1 : uid < fresh w1) by (rewrite Hf1; exact Hu0).
+    pose proof (good_construct c w1 ws (if isobj then KObject else KGroup) (if isobj then 2 else 1) parent uid t [] G1 Hu1) as G2.
+    destruct (construct c w1 ws (if isobj then KObject else KGroup) (if isobj then 2 else 1) parent uid t []) as [[w2 o] y]. exact G2.
+  - destruct (usable w obj KObject); [|exact G].
+    destruct (good_pick w u G) as [G0 Hu0]. destruct (pick_uid w u) as [w0 uid]. simpl in G0, Hu0.
+    pose proof (good_construct c w0 (ews (E w obj)) KData 3 obj uid 0 [] G0 Hu0) as G2.
+    destruct (construct c w0 (ews (E w obj)) KData 3 obj uid 0 []) as [[w2 o] y]. exact G2.
+  - destruct (usable w obj KObject); [|exact G].
+    destruct (good_pick w u G) as [G0 Hu0]. destruct (pick_uid w u) as [w0 uid]. simpl in G0, Hu0.
+    match goal with |- context [construct c w0 ?a KPG 4 obj uid 0 ?ps] =>
+      pose proof (good_construct c w0 a KPG 4 obj uid 0 ps G0 Hu0) as G2;
+      destruct (construct c w0 a KPG 4 obj uid 0 ps) as [[w2 o] y] end. exact G2.
+  - destruct (Nat.ltb e (n w) && alive w e && Nat.ltb target (n w) && alive w target); [apply good_do_copy; exact G | exact G].
+  - match goal with |- context [if ?b then _ else _] => destruct b end; [|exact G]. cbn [fst].
+    apply good_sweep. apply good_set_flat. apply good_upd_ch; [intros r; apply with_ch_ids | exact G].
+  - match goal with |- context [if ?b then _ else _] => destruct b eqn:Eb end; [|exact G]. cbn [fst].
+    apply good_kill; [exact G|]. intros e He. apply andb_true_iff in Eb as [Eb _].
+    rewrite forallb_forall in Eb. pose proof (Eb e He) as H. apply andb_true_iff in H as [H _]. apply andb_true_iff in H as [H _].
+    apply Nat.ltb_lt. exact H.
+  - destruct (kind_eqb k KPG); [exact G | apply good_sweep; exact G].
+  - destruct (Nat.ltb e (n w)); [|exact G].
+    pose proof (good_get_entity w ws (euid (E w e)) G) as G1. destruct (get_entity w ws (euid (E w e))) as [w1 r]. exact G1.
+Qed.
+
+Lemma good_init : good init.
+Proof.
+  constructor.
+  - intros [|[|ws]] [| | | |]; simpl; repeat constructor; simpl; tauto.
+  - intros [|[|ws]] [| | | |] u e; simpl; try tauto; intros [H|[]]; inversion H; subst; simpl; repeat split; lia.
+  - intros e He _ _. simpl in He. destruct e as [|[|[|[|e]]]]; simpl; try (left; reflexivity); lia.
+  - simpl. tauto.
+  - intros e. destruct e as [|[|[|e]]]; simpl; lia.
+  - simpl. lia.
+Qed.
+
+Theorem run_good c : forall h w, good w -> good (run c w h).
+Proof. induction h as [|a r IH]; intros w G; simpl; [exact G | apply IH, good_step, G]. Qed.
+
+Corollary reachable_good c h : good (run c init h).
+Proof. apply run_good, good_init. Qed.
